@@ -280,6 +280,21 @@ def run(facts, cg):
             if sbi in dom and any(cbi in dom and f2 == f_ for cbi, f2 in cand_tests):
                 ok = f_
         instances.append({'rule': 'R-RETRY', 'function': b.q, 'rearm_at': t['loc'], 'budget_field': ok})
+        # ... and the budget only goes down while the request lives: in the bodies that wait and re-send, the budget field is stored to
+        # only by its own decrement.  "The connection is back, give it the full budget again" lets a server that answers and then
+        # cuts the body keep the client retrying for ever.
+        if ok:
+          polling = [g for g in facts.bodies.values() if not g.generated and g.id.startswith(b.id.rsplit('::', 1)[0].split('::{')[0].rsplit('::', 1)[0] + '::') and
+                     any('q' in ct_['callee'] and (callee_q(ct_).split('::')[-1].startswith('poll') or callee_q(ct_) == SLEEP) for _, ct_ in g.calls())]
+          for g in ([b] + [x for x in polling if x is not b]):
+            for dbi in g.live:
+                for st in g.blocks[dbi]['stmts']:
+                    if st['k'] == 'assign' and st['pl']['p'] and st['pl']['p'][-1]['k'] == 'field' and st['pl']['p'][-1].get('n') == ok:
+                        term = simplify(T.resolve_env(simplify(T.of_rvalue(g, st['rv'], 0))))
+                        if not has_field(term, ok) or not (any(n_[0] == 'binop' and n_[1] in ('Sub', 'SubWithOverflow') for n_ in walk(term)) or
+                                                           has_call(term, '::saturating_sub') or has_call(term, '::checked_sub') or has_call(term, '::wrapping_sub')):
+                            finding('R-RETRY', g.q, 'budget-restored', 'the retry budget (`%s`) is stored to at %s with something else than its own decrement (%s): a peer that '
+                                    'lets every attempt get a little way keeps the client retrying without end' % (ok, st['loc'], show(term)[:60]))
         if not ok:
             finding('R-RETRY', b.q, 'unbounded', 'the request is re-armed at %s without consuming a retry budget that is compared with zero' % t['loc'])
     if len([1 for (b, bi, t) in cg.calls_to(SLEEP) if b.crate == 'bitar']) < 2:
